@@ -62,6 +62,13 @@ type Query { m: Mutation  s(on: Subscription = ON): Int }
 type Mutation { x: Int }
 enum Subscription { ON OFF }
 ''',
+    # ... and when only NON-object types carry those names the schema definition is not needed: the text has none, and building it
+    # back must not take the enum / input type for a root
+    '''
+type Query { s(on: Subscription = ON, m: Mutation): Int }
+enum Subscription { ON OFF }
+input Mutation { x: Int }
+''',
 ]
 
 
